@@ -313,21 +313,17 @@ def lines_end_in_trimesh(lines: np.ndarray, faces: np.ndarray) -> np.ndarray:
     area2 = v_dot_cross3d(b, c, d)
     area3 = v_dot_cross3d(c, a, d)
 
+    # the line passes through the (closed) triangle if no two of the three signed volumes have
+    # strictly opposite signs. A volume of ~0 means that the line meets the *infinite* line
+    # through that edge, which is only a hit if the other two volumes agree in sign, i.e. if
+    # the meeting point lies on the edge itself and not on its prolongation.
     eps = 1e-12
-    pass_through_boundary = (
-        (np.abs(area1) < eps) | (np.abs(area2) < eps) | (np.abs(area3) < eps)
+    area1 = np.where(np.abs(area1) < eps, 0.0, np.sign(area1))
+    area2 = np.where(np.abs(area2) < eps, 0.0, np.sign(area2))
+    area3 = np.where(np.abs(area3) < eps, 0.0, np.sign(area3))
+    pass_through = ((area1 >= 0) & (area2 >= 0) & (area3 >= 0)) | (
+        (area1 <= 0) & (area2 <= 0) & (area3 <= 0)
     )
-    # print('pass_through_boundary:')
-    # print(pass_through_boundary)
-
-    area1 = np.sign(area1)
-    area2 = np.sign(area2)
-    area3 = np.sign(area3)
-    pass_through_inside = (area1 == area2) * (area2 == area3)
-    # print('pass_through_inside:')
-    # print(pass_through_inside)
-
-    pass_through = pass_through_boundary | pass_through_inside
 
     # Part 3 ---------------------------
     result_cross = pass_through * plane_cross
